@@ -362,6 +362,20 @@ def main(ctx):
             cases.append({"id": h(["errobj-rebound", sn, rb]), "fam": "errobj", "ident": [sn, cls, "rebound:" + rb],
                           "src": "var KEEP = %s, KEEPE = Error; try { %s } catch (e0) { log('rebind-threw', e0.name); }\n" % (cls, rebind % cls) +
                                  (ERROR_PROBE % (site, "KEEP", "KEEP")).replace("e instanceof Error", "e instanceof KEEPE") + "\nlog('END');\n'x';"})
+    # the message of a ReferenceError names the identifier, whatever letters it starts with (the error's own name, ':' and ' ' included),
+    # and the message given to an Error constructor comes back unchanged
+    import string as _string
+    idents = [c + "q9" for c in _string.ascii_letters + "_$"] + [c * 3 + "x" for c in "RefrncEoTypRag"] + \
+             ["Reference", "ReferenceErrorr", "counter", "enrollment", "foo", "error", "Type", "TypeErrorX", "Range", "RangeErr", "eee", "rrr", "ooo", "nnn", "ccc", "fff"]
+    for idn in idents:
+        for form, use in (("read", "%s;"), ("call", "%s();"), ("member", "%s.x;"), ("in-callback", "[1].map(function () { return %s; });"), ("typeof-guarded", "typeof %s; %s;")):
+            cases.append({"id": h(["refmsg", idn, form]), "fam": "message", "ident": ["unknown-identifier", form, idn],
+                          "src": "try { %s } catch (e) { log(e.name, e.message); }\nlog('END');\n'x';" % use.replace("%s", idn)})
+    for cls in ("Error", "TypeError", "RangeError", "ReferenceError", "SyntaxError", "EvalError", "URIError"):
+        for msg in (cls, cls + ": " + cls, cls.lower(), ": x", " x", cls[:3] + "zz", "".join(sorted(set(cls))), cls + ":", ""):
+            for form in ("throw new %s(%s);", "throw %s(%s);", "(function () { throw new %s(%s); })();", "[1].forEach(function () { throw new %s(%s); });"):
+                cases.append({"id": h(["usermsg", cls, msg, form]), "fam": "message", "ident": ["constructed", cls, msg],
+                              "src": "try { %s } catch (e) { log(e.name, e.message); }\nlog('END');\n'x';" % (form % (cls, json.dumps(msg)))})
     ctxs = ["stmt", "right+", "arg0", "prop", "member-callee"] if ctx.quick else list(skel.CONTEXTS)
     for ident, src in skel.enumerate_skeletons(depth2=True, contexts=ctxs):
         if ident[0] in TRYISH or ident[1] in TRYISH:
